@@ -8,62 +8,11 @@ import (
 	"strings"
 	"testing"
 
-	"github.com/openGemini/openGemini/engine/immutable"
 	kit "github.com/openGemini/openGemini/lib/verifkit"
 )
 
-// Reorganisation ops of the C02 alphabet (after the write menu).
-var vReorgOps = []string{"F", "LC", "FC", "MO", "MF", "RO"}
-
-func vAllOps() []string {
-	ops := []string{}
-	for _, w := range vWriteMenu {
-		ops = append(ops, w.Name)
-	}
-	return append(ops, vReorgOps...)
-}
-
-// vApply executes one op of a history on the real shard and on the model.
-// id is the 1-based position of the op in its history.
-func vApply(v *vShard, m vModel, op string, id int) error {
-	if wi := vWriteIndex(op); wi >= 0 {
-		pts := vWriteMenu[wi].Gen(id)
-		if err := v.Write(pts); err != nil {
-			return err
-		}
-		m.ApplyBatch(pts)
-		return nil
-	}
-	switch op {
-	case "F":
-		v.Flush()
-	case "LC":
-		return v.LevelCompact()
-	case "FC":
-		return v.FullCompact()
-	case "MO":
-		return v.MergeOOO(false)
-	case "MF":
-		return v.MergeOOO(true)
-	case "RO":
-		return v.Reopen()
-	default:
-		return fmt.Errorf("unknown op %q", op)
-	}
-	return nil
-}
-
 type c02Case struct {
 	Ops []string `json:"ops"`
-}
-
-// vSetupEngineKnobs makes short histories reach every layout: level compaction with 2 files per
-// group, tiny segments.
-func vSetupEngineKnobs() {
-	for i := range immutable.LeveLMinGroupFiles {
-		immutable.LeveLMinGroupFiles[i] = 2
-	}
-	immutable.SetMaxRowsPerSegment4TsStore(2)
 }
 
 // c02RunHistory runs ops on a fresh shard; checks all read shapes after every step.
